@@ -327,7 +327,7 @@ def install():
     m(ParseTree, "get_rightmost_derivation", PROP, pre_deriv, make_post_deriv(False))
     from pyformlang.fcfg import FCFG
     m(FCFG, "get_parse_tree", PROP, pre_fcfg, post_fcfg)
-    core.budget_funcs([R._get_parse_tree_sub, R._match])
+    core.budget_funcs(core.existing(R, "_get_parse_tree_sub", "_match", "get_parse_tree"))
 
 
 def plan(tier, rng, sl, nslices, stats):
